@@ -158,6 +158,18 @@ def extract_fn_text(path, scopes, name):
     return "\n".join(lines[a:b + 1])
 
 
+def list_fns(path, scopes):
+    """Names of the fn items directly inside the (innermost) scope, in source order."""
+    with open(path) as f:
+        lines = f.read().split("\n")
+    s, e = 0, len(lines) - 1
+    for sc in scopes:
+        s, e = find_scope(lines, sc, s, e + 1)
+    indent = len(re.match(r"^\s*", lines[s]).group(0)) + 4
+    pat = re.compile(r"^\s{%d}(pub(\([^)]*\))?\s+)?(const\s+)?fn\s+(\w+)\s*[<(]" % indent)
+    return [m.group(4) for m in (pat.match(l) for l in lines[s:e + 1]) if m]
+
+
 def extract_closure_body(path, marker):
     """Textual extraction of the body of a closure: from the line containing `marker` (which ends with `{`) to the
     line holding the matching `}`.  Returns (body_lines, first_line_no, last_line_no) -- the lines strictly between."""
